@@ -55,9 +55,11 @@ def plan_jobs(mod, tier, seed, scale):
         total = max(1, int(total * scale))
         shards = min(spec.get("shards", ncpu), total)
         base, extra = divmod(total, shards)
+        # a lane may pin its workload (same generated cases whatever VERIF_SEED says): used where the workload has been validated case by case
+        lane_seed = spec["pinned_seed"] if spec.get("pinned_seed") is not None else seed
         for k in range(shards):
             n = base + (1 if k < extra else 0)
-            jobs.append(dict(lane=lane, shard=k, nshards=shards, n=n, seed=seed, tier=tier))
+            jobs.append(dict(lane=lane, shard=k, nshards=shards, n=n, seed=lane_seed, tier=tier))
     return jobs
 
 
